@@ -23,6 +23,7 @@ import (
 	"github.com/AdguardTeam/AdGuardHome/internal/filtering"
 	"github.com/AdguardTeam/AdGuardHome/internal/querylog"
 	"github.com/AdguardTeam/AdGuardHome/internal/schedule"
+	"github.com/AdguardTeam/AdGuardHome/internal/verifkit"
 	"github.com/AdguardTeam/dnsproxy/proxy"
 	"github.com/AdguardTeam/dnsproxy/upstream"
 	"github.com/AdguardTeam/golibs/logutil/slogutil"
@@ -174,6 +175,17 @@ func vkWeekly(pauseAlways bool) *schedule.Weekly {
 // vkStart builds the filter, the client storage and the server from c and
 // starts it on loopback.
 func vkStart(c *vkConf) (vs *vkServer, err error) {
+	for attempt := 0; attempt < 6; attempt++ {
+		vs, err = vkStartOnce(c)
+		if err == nil || !strings.Contains(err.Error(), "address already in use") {
+			return vs, err
+		}
+	}
+
+	return vs, err
+}
+
+func vkStartOnce(c *vkConf) (vs *vkServer, err error) {
 	vkInitOnce.Do(func() { filtering.InitModule() })
 	ctx := context.Background()
 
@@ -277,9 +289,11 @@ func vkStart(c *vkConf) (vs *vkServer, err error) {
 	}
 
 	lo := net.IPv4(127, 0, 0, 1)
+	// Never port 0: see verifkit.FreePort.
+	port := verifkit.FreePort()
 	sconf := &ServerConfig{
-		UDPListenAddrs: []*net.UDPAddr{{IP: lo}},
-		TCPListenAddrs: []*net.TCPAddr{{IP: lo}},
+		UDPListenAddrs: []*net.UDPAddr{{IP: lo, Port: port}},
+		TCPListenAddrs: []*net.TCPAddr{{IP: lo, Port: port}},
 		TLSConf:        &TLSConfig{},
 		Config: Config{
 			UpstreamMode:     UpstreamModeLoadBalance,
